@@ -131,6 +131,7 @@ func Bubble(t *testing.T, rt *rapid.T, f func()) {
 		panicked bool
 		val      any
 		stack    []byte
+		site     string
 	)
 	done := make(chan struct{})
 	go func() {
@@ -160,6 +161,7 @@ func Bubble(t *testing.T, rt *rapid.T, f func()) {
 			defer func() {
 				if r := recover(); r != nil {
 					panicked, val, stack = true, r, debug.Stack()
+					site = failureSite()
 				}
 			}()
 			f()
@@ -167,12 +169,53 @@ func Bubble(t *testing.T, rt *rapid.T, f func()) {
 	}()
 	if panicked {
 		if isRapidControl(val) {
-			panic(val)
+			if fmt.Sprintf("%T", val) == "rapid.invalidData" {
+				repanicInvalid(val)
+			}
+			// rapid's shrinker decides "same failure" by the traceback alone; re-raise at a
+			// stack depth derived from the original failure site so that different failures
+			// (and invalid-data unwinds) stay distinguishable.
+			repanicAt(1+int(hashSite(site)%61), val)
 		}
 		rt.Fatalf("panic inside bubble: %v\n%s", val, stack)
 	}
 	if outer != nil {
 		rt.Fatalf("bubble did not shut down cleanly: %v\n%s", outer, filterBubble(outerStack))
+	}
+}
+
+//go:noinline
+func repanicInvalid(v any) { panic(v) }
+
+//go:noinline
+func repanicAt(depth int, v any) {
+	if depth <= 0 {
+		panic(v)
+	}
+	repanicAt(depth-1, v)
+}
+
+func hashSite(s string) uint64 {
+	h := fnv.New64a()
+	h.Write([]byte(s))
+	return h.Sum64()
+}
+
+// failureSite returns file:line of the innermost frame of the panicking stack that is
+// neither runtime, rapid nor this package (i.e. the test code that called Fatalf).
+func failureSite() string {
+	pcs := make([]uintptr, 64)
+	pcs = pcs[:runtime.Callers(2, pcs)]
+	frames := runtime.CallersFrames(pcs)
+	for {
+		f, more := frames.Next()
+		if f.Function != "" && !strings.HasPrefix(f.Function, "runtime.") && !strings.HasPrefix(f.Function, "pgregory.net/rapid.") &&
+			!strings.HasPrefix(f.Function, "verif/internal/hx.") {
+			return fmt.Sprintf("%s:%d", f.File, f.Line)
+		}
+		if !more {
+			return "unknown"
+		}
 	}
 }
 
